@@ -55,6 +55,8 @@ func VariantsCombined() []Variant {
 		{Name: "12-cid-resumed", Resumed: true, C: world.Cfg{CIDLen: 4}, S: world.Cfg{CIDLen: 4}},
 		{Name: "12-psk-mtu100", C: world.Cfg{MTU: 100, Cred: "psk", PSK: pskKey, Suites: []dtls.CipherSuiteID{dtls.TLS_PSK_WITH_AES_128_GCM_SHA256}},
 			S: world.Cfg{MTU: 100, Cred: "psk", PSK: pskKey, Suites: []dtls.CipherSuiteID{dtls.TLS_PSK_WITH_AES_128_GCM_SHA256}}},
+		// DTLS 1.3 with fragmented flights: partial ACKs and selective retransmission only exist here
+		{Name: "13-mtu200", V13: true, C: world.Cfg{MinV: 13, MaxV: 13, MTU: 200}, S: world.Cfg{MinV: 13, MaxV: 13, MTU: 200, SkipHelloVerify: true}},
 	}
 }
 
